@@ -557,8 +557,100 @@ func (c *c15Case) runMD(ctx *core.Ctx) {
 	rec(c.Prefix)
 }
 
+// ---- world LESS: a long-lived engine with the LESS processor; the page's <style> block imports a
+// file that is edited, turned into a circular import, repaired, deleted
+
+var c15LessEvents = []string{"render", "edit+:theme", "cycle:theme", "delete:theme", "edit+:page", "edit+:mixin", "cycle:mixin", "render:other"}
+
+func (c *c15Case) runLESS(ctx *core.Ctx) {
+	var rec func(hist []string)
+	rec = func(hist []string) {
+		ver := map[string]int{"theme": 1, "mixin": 1, "page": 1}
+		exists := map[string]bool{"theme": true, "mixin": true, "page": true}
+		cyc := map[string]bool{}
+		mt := map[string]time.Time{"theme": baseTime, "mixin": baseTime, "page": baseTime}
+		content := fstest.MapFS{}
+		colours := []string{"red", "blue", "green", "purple", "teal", "navy", "olive"}
+		sync := func() {
+			for _, f := range []string{"theme", "mixin"} {
+				if !exists[f] {
+					delete(content, f+".less")
+					continue
+				}
+				body := fmt.Sprintf("@%s: %s;\n", f, colours[ver[f]%len(colours)])
+				if f == "theme" {
+					body = "@import \"mixin.less\";\n" + body
+				}
+				if cyc[f] {
+					body = fmt.Sprintf("@import \"%s.less\";\n", f) + body
+				}
+				content[f+".less"] = &fstest.MapFile{Data: []byte(body), ModTime: mt[f]}
+			}
+			content["page.vuego"] = &fstest.MapFile{Data: []byte(fmt.Sprintf("<style type=\"text/css+less\">\n@import \"theme.less\";\n.box {\n  color: @theme;\n  background: @mixin;\n  top: %dpx;\n}\n</style><p>x</p>", ver["page"])), ModTime: mt["page"]}
+			content["other.vuego"] = &fstest.MapFile{Data: []byte("<style type=\"text/css+less\">\n.o {\n  color: teal;\n}\n</style><p>o</p>"), ModTime: baseTime}
+		}
+		sync()
+		long := vuego.NewFS(content, vuego.WithLessProcessor())
+		for step, ev := range hist {
+			kind, arg, _ := strings.Cut(ev, ":")
+			switch kind {
+			case "edit+":
+				ver[arg]++
+				exists[arg], cyc[arg] = true, false
+				mt[arg] = mt[arg].Add(time.Hour)
+				sync()
+			case "cycle":
+				ver[arg]++
+				exists[arg], cyc[arg] = true, true
+				mt[arg] = mt[arg].Add(time.Hour)
+				sync()
+			case "delete":
+				if !exists[arg] {
+					return
+				}
+				exists[arg] = false
+				mt[arg] = mt[arg].Add(time.Hour)
+				sync()
+			case "render":
+				file := "page.vuego"
+				if arg == "other" {
+					file = "other.vuego"
+				}
+				one := func(t vuego.Template) string {
+					var buf bytes.Buffer
+					err := t.Load(file).Render(bg, &buf)
+					return res(buf.String(), err)
+				}
+				ctx.Eval(2)
+				got, want := one(long), one(vuego.NewFS(content, vuego.WithLessProcessor()))
+				ctx.Transition(1)
+				if got != want {
+					last := "first-render"
+					if step > 0 {
+						last = "after-" + hist[step-1]
+					}
+					ctx.Violation("stale-render", "less-engine/"+file, last, fmt.Sprintf("history %v: the long-lived engine renders\n  %q\na new engine on the same files renders\n  %q", hist[:step+1], clip(got, 300), clip(want, 300)))
+					return
+				}
+			}
+		}
+		ctx.State(1)
+		if len(hist) >= c.Depth {
+			return
+		}
+		for _, ev := range c15LessEvents {
+			rec(append(append([]string{}, hist...), ev))
+		}
+	}
+	rec(c.Prefix)
+}
+
 func (c *c15Case) Run(ctx *core.Ctx) {
 	ctx.NonTrivial()
+	if c.World == "LESS" {
+		c.runLESS(ctx)
+		return
+	}
 	if c.World == "MD" {
 		c.runMD(ctx)
 		return
@@ -732,6 +824,11 @@ func init() {
 			for _, e1 := range c15Events {
 				for _, e2 := range c15Events {
 					emit(&c15Case{Prefix: []string{e1, e2}, Depth: depth})
+				}
+			}
+			for _, e1 := range c15LessEvents {
+				for _, e2 := range c15LessEvents {
+					emit(&c15Case{World: "LESS", Prefix: []string{e1, e2}, Depth: depth - 1})
 				}
 			}
 			for _, e1 := range c15MDEvents {
